@@ -48,6 +48,7 @@ Record software := {
 Record rt := {
   is_client : bool;
   running : bool;                (* handle.is_some() *)
+  crashed : bool;                (* Rt.crashed: tasks were cancelled by Rt::crash, not bounced since *)
   sw : nat -> software;          (* incarnation number -> software (constant for a client) *)
   polls : nat;                   (* Rt::tick calls received by the current incarnation *)
   starts : nat;                  (* software factory invocations; incarnation = starts - 1 *)
@@ -79,14 +80,14 @@ Definition cur_outcome (r : rt) : outcome := prog (cur_sw r) (polls r).
 
 (* Sim::client / Sim::host *)
 Definition new_rt (client : bool) (f : nat -> software) (now : N) : rt :=
-  {| is_client := client; running := true; sw := f; polls := 0; starts := 1;
+  {| is_client := client; running := true; crashed := false; sw := f; polls := 0; starts := 1;
      t_elapsed := 0; t_offset := now; inc_base := 0 |}.
 Definition add_rt (s : state) (client : bool) (f : nat -> software) : state :=
   set_rts s (rts s ++ [new_rt client f (elapsed s)]).
 
 (* HostTimer::tick *)
 Definition timer_tick (d : N) (r : rt) : rt :=
-  {| is_client := is_client r; running := running r; sw := sw r; polls := polls r;
+  {| is_client := is_client r; running := running r; crashed := crashed r; sw := sw r; polls := polls r;
      starts := starts r; t_elapsed := t_elapsed r + d; t_offset := t_offset r;
      inc_base := inc_base r |}.
 
@@ -94,7 +95,7 @@ Inductive tick_res := TOk (finished : bool) | TErr | TPanic.
 
 (* Rt::tick: the window has run; look at the handle. *)
 Definition polled (r : rt) (still_running : bool) : rt :=
-  {| is_client := is_client r; running := still_running; sw := sw r; polls := S (polls r);
+  {| is_client := is_client r; running := still_running; crashed := crashed r; sw := sw r; polls := S (polls r);
      starts := starts r; t_elapsed := t_elapsed r; t_offset := t_offset r;
      inc_base := inc_base r |}.
 Definition rt_tick (r : rt) : rt * tick_res :=
@@ -180,7 +181,12 @@ Fixpoint poll_loop (s : state) (l : list rt) (order : list nat) (fin : bool) (lo
 Inductive sres := ROk (fin : bool) | RErr | RTimeout | RPanic.
 
 (* stopped hosts are ticked after the loop; `was` = is_software_running at
-   partition time *)
+   partition time.  Since /repo 2342d63 the loop first drains the inbound
+   network of a stopped host whose `crashed` flag is set
+   (Topology::deliver_messages): no code of the host runs, its (empty) socket
+   tables answer TCP data / FIN with RST, refuse SYNs and drop datagrams — see
+   Tables.receive and c04_crashed_stack_answers.  Message delivery (for running
+   hosts as well) is outside this model of the core. *)
 Fixpoint tick_stopped (d : N) (was : list bool) (l : list rt) : list rt :=
   match was, l with
   | w :: ws, r :: t => (if w then r else timer_tick d r) :: tick_stopped d ws t
@@ -225,14 +231,14 @@ Definition run_fuel (s : state) : nat := N.to_nat ((duration s - elapsed s) / ti
 Definition run (s : state) (orc : nat -> list nat) : state * rres * nat * list read_obs :=
   if existsb is_client (rts s) then run_loop (run_fuel s) orc 0 s [] else (s, RunOk, O, []).
 
-(* Rt::crash: `if self.handle.take().is_some() { self.cancel_tasks() }` *)
+(* Rt::crash: `if self.handle.take().is_some() { self.cancel_tasks(); self.crashed = true }` *)
 Definition crash1 (r : rt) : rt :=
-  {| is_client := is_client r; running := false; sw := sw r; polls := polls r;
+  {| is_client := is_client r; running := false; crashed := running r || crashed r; sw := sw r; polls := polls r;
      starts := starts r; t_elapsed := t_elapsed r; t_offset := t_offset r;
      inc_base := inc_base r |}.
-(* Rt::bounce: cancel_tasks, spawn software() on the fresh runtime *)
+(* Rt::bounce: cancel_tasks, spawn software() on the fresh runtime, crashed = false *)
 Definition bounce1 (r : rt) : rt :=
-  {| is_client := is_client r; running := true; sw := sw r; polls := 0;
+  {| is_client := is_client r; running := true; crashed := false; sw := sw r; polls := 0;
      starts := S (starts r); t_elapsed := t_elapsed r; t_offset := t_offset r;
      inc_base := t_elapsed r |}.
 
